@@ -208,12 +208,18 @@ LoadStatus DepsLog::Load(const string& path, State* state, string* err) {
     }
 
     if (is_deps) {
-      if ((size % 4) != 0) {
+      // A deps record holds at least the output id and the mtime, and its
+      // output id must name a path record seen earlier.
+      if ((size % 4) != 0 || size < 12) {
         read_failed = true;
         break;
       }
       int* deps_data = reinterpret_cast<int*>(buf);
       int out_id = deps_data[0];
+      if (out_id < 0 || out_id >= (int)nodes_.size()) {
+        read_failed = true;
+        break;
+      }
       TimeStamp mtime;
       mtime = (TimeStamp)(((uint64_t)(unsigned int)deps_data[2] << 32) |
                           (uint64_t)(unsigned int)deps_data[1]);
@@ -222,7 +228,7 @@ LoadStatus DepsLog::Load(const string& path, State* state, string* err) {
 
       for (int i = 0; i < deps_count; ++i) {
         int node_id = deps_data[i];
-        if (node_id >= (int)nodes_.size() || !nodes_[node_id]) {
+        if (node_id < 0 || node_id >= (int)nodes_.size() || !nodes_[node_id]) {
           read_failed = true;
           break;
         }
